@@ -1,4 +1,5 @@
 import SigHook.Props.C14
+import SigHook.Model.Skel
 /-!
 # C12 — A Signals instance survives rejected additions and cleans up what it owns
 
@@ -156,5 +157,13 @@ example : let w0 := (newInst Registry.envLinux cur World.init .only [(10, 1), (1
     (addSignal Registry.envLinux cur w0 9 3).2 = .panic ∧
     (addSignal Registry.envLinux cur (addSignal Registry.envLinux cur w0 9 3).1 14 4).2 = .ok ∧
     actionsOf (dropInst cur w0).1.reg 10 = [] := by decide
+
+/-- **C12.add_signal_skeleton** — tie to the source (regenerated): `Handle::add_signal` takes the ids lock
+(tolerating poison), returns at once for a signal it already watches, registers, and records the id - all
+under the one lock, which is not dropped in between. -/
+theorem C12_add_signal_skeleton :
+    skelOf "src/iterator/backend.rs" "add_signal@registered_signal_ids" =
+      ["lock", "tolerant", "check.registered", "return.ok", "register", "record"] := by decide
+
 
 end SigHook.Entry
